@@ -3512,6 +3512,11 @@ func (lbc *LoadBalancerController) getStartingSplitClientsIndex(vsr *conf_v1.Vir
 }
 
 func (lbc *LoadBalancerController) haltIfVSConfigInvalid(vsNew *conf_v1.VirtualServer) bool {
+	// a VirtualServer of another ingress class is none of this controller's business
+	if !lbc.HasCorrectIngressClass(vsNew) {
+		return true
+	}
+
 	lbc.configuration.lock.Lock()
 	defer lbc.configuration.lock.Unlock()
 	key := getResourceKey(&vsNew.ObjectMeta)
@@ -3589,6 +3594,11 @@ func (lbc *LoadBalancerController) haltIfVSConfigInvalid(vsNew *conf_v1.VirtualS
 }
 
 func (lbc *LoadBalancerController) haltIfVSRConfigInvalid(vsrNew *conf_v1.VirtualServerRoute) (bool, *configs.VirtualServerEx) {
+	// a VirtualServerRoute of another ingress class is none of this controller's business
+	if !lbc.HasCorrectIngressClass(vsrNew) {
+		return true, nil
+	}
+
 	lbc.configuration.lock.Lock()
 	defer lbc.configuration.lock.Unlock()
 	key := getResourceKey(&vsrNew.ObjectMeta)
